@@ -16,6 +16,8 @@ from ..rules import guards, forward, fintab
 
 
 EXTRAS = [
+    lambda rep, fb, tier: __import__("vf.rules.binding", fromlist=["x"]).rule_pointer_units(rep, fb),
+    lambda rep, fb, tier: __import__("vf.rules.binding", fromlist=["x"]).rule_buffer_info_pair(rep, fb),
     lambda rep, fb, tier: __import__("vf.rules.binding", fromlist=["x"]).rule_exception_unthrown(rep, fb),
     lambda rep, fb, tier: guards.rule_getitem_at(rep, fb),
     lambda rep, fb, tier: guards.rule_invariants(rep, fb),
